@@ -129,9 +129,11 @@ func bfDescribe(b bfBeh) []string {
 
 // bwsFaultReplay replays one behaviour. viaLogger=false: direct calls, byte-level oracles (C12).
 // viaLogger=true: entries through a zap.Logger whose core writes to the BufferedWriteSyncer (C10).
-func bwsFaultReplay(b bfBeh, size int, viaLogger bool, prop string) (finds []Finding, drift string) {
+var bfWraps = []string{"the failing sink alone", "CombineWriteSyncers(failing sink, healthy sink)", "CombineWriteSyncers(healthy sink, failing sink)", "Lock(failing sink)"}
+
+func bwsFaultReplay(b bfBeh, size int, viaLogger bool, prop string, wrap int) (finds []Finding, drift string) {
 	add := func(key, f string, a ...interface{}) {
-		finds = append(finds, Finding{Key: prop + "/" + key, What: fmt.Sprintf(f, a...) + fmt.Sprintf("; history=%v", bfDescribe(b))})
+		finds = append(finds, Finding{Key: prop + "/" + key, What: fmt.Sprintf(f, a...) + fmt.Sprintf("; history=%v over %s", bfDescribe(b), bfWraps[wrap])})
 	}
 	unit := bwsUnit
 	if viaLogger {
@@ -139,7 +141,16 @@ func bwsFaultReplay(b bfBeh, size int, viaLogger bool, prop string) (finds []Fin
 	}
 	sink := &bfSink{unit: unit}
 	clk := newHarnessClock()
-	bws := &zapcore.BufferedWriteSyncer{WS: sink, Size: size * unit, FlushInterval: time.Hour, Clock: clk}
+	var ws zapcore.WriteSyncer = sink
+	switch wrap {
+	case 1:
+		ws = zap.CombineWriteSyncers(sink, &bfSink{unit: unit})
+	case 2:
+		ws = zap.CombineWriteSyncers(&bfSink{unit: unit}, sink)
+	case 3:
+		ws = zapcore.Lock(sink)
+	}
+	bws := &zapcore.BufferedWriteSyncer{WS: ws, Size: size * unit, FlushInterval: time.Hour, Clock: clk}
 	errOut := &bfErrOut{}
 	var lg *zap.Logger
 	if viaLogger {
@@ -322,7 +333,8 @@ func runBwsFault(c *Ctx, prop string) {
 		if n%1501 == 1 {
 			c.Sample(map[string]interface{}{"mode": "bws-sink-faults", "history": bfDescribe(b)})
 		}
-		f, drift := bwsFaultReplay(b, 3, prop == "C10", prop)
+		wrap := n % len(bfWraps)
+		f, drift := bwsFaultReplay(b, 3, prop == "C10", prop, wrap)
 		if drift != "" {
 			ndrift++
 			if ndrift <= 3 {
@@ -330,8 +342,8 @@ func runBwsFault(c *Ctx, prop string) {
 			}
 		}
 		for _, x := range f {
-			if again, _ := bwsFaultReplay(b, 3, prop == "C10", prop); len(again) > 0 {
-				c.Violation(x.Key, x.What, map[string]interface{}{"mode": "bws-sink-faults", "beh": b})
+			if again, _ := bwsFaultReplay(b, 3, prop == "C10", prop, wrap); len(again) > 0 {
+				c.Violation(x.Key, x.What, map[string]interface{}{"mode": "bws-sink-faults", "beh": b, "wrap": bfWraps[wrap]})
 			} else {
 				c.Inconclusive("%s sink-fault replay not reproducible: %s", prop, x.What)
 			}
